@@ -57,6 +57,18 @@ def compress_cases(ctx, n, nsmall, nbig=0, maxsize=None):
     for i, c in enumerate(cs):
         c['i'] = i
         c['env'] = lbz.sched_env(rnd) if rnd.random() < 0.5 else {}
+    # many equally expensive (but distinct) blocks at level 1: all workers finish their blocks at about the same time, again and again, so whatever orders
+    # the hand-over to the writer is raced 24-64 times per run; always under schedule perturbation
+    for i in range(max(8, n // 20)):
+        nb = rnd.choice([24, 40, 64])
+        if i % 2:
+            data = rnd.randbytes(100000 * nb)
+        else:
+            blk = gen.textlike(rnd, 99992)
+            data = b''.join(b'%08d' % k + blk for k in range(nb))        # equal cost, distinct content
+        c = dict(fam='lockstep-blocks', data=data, level=1, ultra=rnd.random() < 0.3, w=rnd.choice([2, 3, 4, 8]), i=len(cs))
+        c['env'] = {'LBZIP2_VERIF_SCHED': '%d:%s' % (rnd.randrange(1, 1 << 30), rnd.choice(['gaps', 'gaps:1', 'gaps:5', 'jitter', 'slowthread']))}
+        cs.append(c)
     return cs
 
 
